@@ -198,7 +198,13 @@ def prefix_table(ctx, rule):
         ctx.ob(rule, fi, dicts[0].lineno, f"prefix {need!r} is supported", need in table, nontrivial=False,
                why='a prefix the documentation uses is missing', key=f"prefix table lacks {need!r}")
     # the function returns exactly the table value / rejects everything else
-    for k, v in list(table.items()) + [('x', None), ('mm', None)]:
+    # spellings that differ from a table key by case or white space only are not prefixes ('K', 'U', 'Da', ' m')
+    near = []
+    for k in table:
+        for alt in (k.upper(), k.lower(), k.capitalize(), k.swapcase(), k + ' ', ' ' + k):
+            if alt not in table and alt not in near and alt.strip() != '' and alt != k:
+                near.append(alt)
+    for k, v in list(table.items()) + [('x', None), ('mm', None)] + [(a, None) for a in near]:
         def mk(I, k=k):
             return {'prefix': S(k)}
         _, R = _explore(ctx, 'Unit.convert_prefix_to_multiplier', mk)
